@@ -740,3 +740,52 @@ Qed.
 Lemma sub_in : forall lo hi c, 0 <= lo <= hi -> hi <= Z.of_nat c ->
   (0 <=? lo) && (lo <=? hi) && (hi <=? Z.of_nat c) = true.
 Proof. intros lo hi c H1 H2. repeat (apply andb_true_intro; split); apply Z.leb_le; lia. Qed.
+
+(* ---- more rules and heap facts used by the function proofs *)
+
+Lemma runs_make : forall fe x n st k, eval st n = EV (VInt k) -> 0 <= k ->
+  runs fe (SMake x n) st
+    (ONormal (St (upd x (VSl (Slice (length (hp st)) O (Z.to_nat k) (Z.to_nat k))) (locals st))
+                 (hp st ++ [repeat 0 (Z.to_nat k)]))).
+Proof.
+  intros fe x n st k H Hk. exists 1%nat. split; [|discriminate]. cbn [exec]. rewrite H. cbn [of_eres].
+  destruct (k <? 0) eqn:E; [apply Z.ltb_lt in E; lia|]. reflexivity.
+Qed.
+
+Lemma set_arr_alloc_new : forall (h : heap) X l, set_arr (length h) l (h ++ [X]) = h ++ [l].
+Proof.
+  induction h as [|x h IH]; intros X l; [reflexivity|]. cbn [length app set_arr]. rewrite IH. reflexivity.
+Qed.
+
+Lemma heap_write_alloc_new : forall (h : heap) X o ys,
+  heap_write (h ++ [X]) (length h) o ys = h ++ [write_at o ys X].
+Proof. intros h X o ys. unfold heap_write. rewrite arr_of_alloc_new. apply set_arr_alloc_new. Qed.
+
+Lemma set_arr_alloc_old : forall a l (h : heap) X, (a < length h)%nat ->
+  set_arr a l (h ++ [X]) = set_arr a l h ++ [X].
+Proof.
+  induction a as [|a IH]; intros l h X H; destruct h as [|x h]; cbn [length] in H; try lia.
+  - reflexivity.
+  - cbn [app set_arr]. rewrite IH by lia. reflexivity.
+Qed.
+
+Lemma heap_write_alloc_old : forall (h : heap) X a o ys, (a < length h)%nat ->
+  heap_write (h ++ [X]) a o ys = heap_write h a o ys ++ [X].
+Proof.
+  intros h X a o ys H. unfold heap_write. rewrite arr_of_alloc_old by exact H.
+  apply set_arr_alloc_old. exact H.
+Qed.
+
+Lemma slice_ok_ext : forall h h' s, length h' = length h ->
+  length (arr_of h' (s_arr s)) = length (arr_of h (s_arr s)) -> slice_ok h s -> slice_ok h' s.
+Proof. intros h h' s H1 H2 (A & B & C). unfold slice_ok. rewrite H1, H2. repeat split; assumption. Qed.
+
+Lemma firstn_S_nth : forall (l : list Z) j d, (j < length l)%nat ->
+  firstn (S j) l = firstn j l ++ [nth j l d].
+Proof.
+  induction l as [|x l IH]; intros j d H; cbn [length] in H; [lia|].
+  destruct j as [|j]; [reflexivity|]. cbn [firstn nth app]. rewrite <- IH by lia. reflexivity.
+Qed.
+
+Lemma leb_in : forall a b : nat, (a <= b)%nat -> (a <=? b)%nat = true.
+Proof. intros a b H. apply Nat.leb_le. exact H. Qed.
